@@ -576,7 +576,10 @@ def rule_encode_reads_fields(chk, rid):
             dc, fn = ci.find_method(mn)
             if fn is None:
                 continue
+            asserted = {id(y) for st in body_walk(fn) if isinstance(st, ast.Assert) for y in ast.walk(st)}
             for x in body_walk(fn):
+                if id(x) in asserted:
+                    continue     # a field that is only asserted about is not printed
                 if isinstance(x, ast.Attribute) and isinstance(x.value, ast.Name) and x.value.id == "self":
                     if x.attr in fields:
                         read.add(x.attr)
